@@ -193,13 +193,12 @@ Fixpoint sv_spec (n : nat) (s : list Z) : option (list Z) :=
     end
   end.
 
-(* otto's parseStringLiteral.  The three booleans switch otto's three deviations
-   off one by one (all false = the code as it is):
-     fs: an escape \uD800..\uDFFF is written with WriteRune, which turns a surrogate into U+FFFD
-     fo: an octal escape takes up to three digits whatever the first one is (\400 = U+0100)
-     fl: "\" + U+2028/U+2029 keeps the character instead of being a LineContinuation *)
+(* otto's parseStringLiteral (as of /repo 96a7b64: an octal escape starting with 4..7
+   takes two digits, backslash + LS/PS is a LineContinuation).  One deviation is left;
+   the boolean switches it off (false = the code as it is):
+     fs: an escape \uD800..\uDFFF is written with WriteRune, which turns a surrogate into U+FFFD *)
 Section SvModel.
-  Variables fs fo fl : bool.
+  Variable fs : bool.
   Definition write_rune (v : Z) : list Z :=
     if negb fs && (55296 <=? v) && (v <=? 57343) then [65533] else units_of_cp v.
 
@@ -211,8 +210,8 @@ Section SvModel.
       match s with
       | [] => Some []
       | 92 :: c :: r =>
-          if fl && ((c =? 8232) || (c =? 8233)) then cons [] r
-          else if 128 <=? c then cons (units_of_cp c) r          (* "\" + non-ASCII: the character, LS/PS included *)
+          if (c =? 8232) || (c =? 8233) then cons [] r           (* LineContinuation *)
+          else if 128 <=? c then cons (units_of_cp c) r          (* "\" + non-ASCII: the character *)
           else if c =? 13 then match r with 10 :: r' => cons [] r' | _ => cons [] r end
           else if c =? 10 then cons [] r
           else if c =? 120 then
@@ -223,13 +222,13 @@ Section SvModel.
             | _ => None
             end
           else if is_oct c then
-            (* value = first digit, then up to two more octal digits, whatever the first was *)
+            (* value = first digit, then up to two more octal digits (one more when the first is 4..7) *)
             match r with
             | d1 :: r1 =>
                 if is_oct d1 then
                   match r1 with
                   | d2 :: r2 =>
-                      if is_oct d2 && (negb fo || (c <=? 51))
+                      if is_oct d2 && (c <=? 51)
                       then cons (write_rune (((c - 48) * 8 + (d1 - 48)) * 8 + (d2 - 48))) r2
                       else cons (write_rune ((c - 48) * 8 + (d1 - 48))) r1
                   | [] => cons (write_rune ((c - 48) * 8 + (d1 - 48))) r1
@@ -247,6 +246,9 @@ Section SvModel.
     end.
 End SvModel.
 
-Definition sv_model := sv_gen false false false.
+Definition sv_model := sv_gen false.
+
+(* a code unit that is not a surrogate *)
+Definition nonsurr (u : Z) : Prop := u < 55296 \/ 57343 < u.
 
 Definition sv (f : nat -> list Z -> option (list Z)) (s : list Z) := f (S (length s)) s.
